@@ -81,3 +81,40 @@ Theorem C12_literal_statement_refuted :
     ∀ sched, tips (run_sched U P cfg sched) = tips cfg.
 Proof. exact literal_statement_refuted. Qed.
 Print Assumptions C12_literal_statement_refuted.
+
+(** The manager-level fact behind the syncer's checkpoint path: a pre-validated batch whose
+    prefix [pre] is already on our best chain is not abandoned at that prefix.
+    AddValidatedV2Blocks skips the blocks it already has on the best chain, stores the rest
+    [suf], and — its last block being sufficiently heavier than our tip — adopts it: the call
+    returns Ok, notifies, the new tip is the last block of the batch and every block of [suf]
+    is on the new best chain. *)
+Theorem C12_known_prefix_batch_adopted :
+  ∀ U m c pre suf,
+    WF U → MInv U m → all_body m →
+    c ∈ best m → (∀ x, x ∈ pre → x ∈ best m) →
+    suf ≠ [] → lp U (reverse (pre ++ suf)) c →
+    (∀ x, x ∈ pre ++ suf → okb U x = true) →
+    heavier U (List.last suf c) (tip m) = true →
+    ∃ m', add_validated U m (pre ++ suf) = (m', Ok, true) ∧ tip m' = List.last suf c ∧
+          MInv U m' ∧ all_body m' ∧ (∀ x, x ∈ suf → x ∈ best m').
+Proof. exact known_prefix_batch_adopted. Qed.
+Print Assumptions C12_known_prefix_batch_adopted.
+
+(** The contrast: a variant of the entry point whose store loop *returns* (reporting
+    success) at the first block that is already on the best chain ([add_validated_stop],
+    Net/ConvergeProofs.v) loses such a batch.  Witness: trunk 1-2-3, our block 4 on 3, the
+    peer's heavier fork 5-6 on 3, batch [2;3] ++ [5;6] hanging on 1: every hypothesis of the
+    previous theorem holds, the real entry point moves the tip to 6, the variant answers
+    (Ok, no notification) and stays on [4;3;2;1;0]. *)
+Theorem C12_stop_at_known_block_refuted :
+  ∃ U m c pre suf,
+    WF U ∧ MInv U m ∧ all_body m ∧
+    c ∈ best m ∧ (∀ x, x ∈ pre → x ∈ best m) ∧
+    suf ≠ [] ∧ lp U (reverse (pre ++ suf)) c ∧
+    (∀ x, x ∈ pre ++ suf → okb U x = true) ∧
+    heavier U (List.last suf c) (tip m) = true ∧
+    (∃ m', add_validated U m (pre ++ suf) = (m', Ok, true) ∧ tip m' = List.last suf c) ∧
+    (∃ m', add_validated_stop U m (pre ++ suf) = (m', Ok, false) ∧
+           best m' = best m ∧ tip m' ≠ List.last suf c).
+Proof. exact stop_at_known_block_refuted. Qed.
+Print Assumptions C12_stop_at_known_block_refuted.
